@@ -5,7 +5,7 @@ package farm
 
 // End block: every pool queued for this height is taken off the queue and refunded (errors of a refund are logged, the
 // block never aborts), entries for other heights stay.
-//@ func EndBlocker
+//@ func EndBlocker(c, k)
 //@   property C13, C06
 //@   requires height >= 0
 //@   requires keeper.rulesWF && keeper.rulesOK && keeper.poolsWF && keeper.activeInv && keeper.activeWF
@@ -18,7 +18,7 @@ package farm
 
 // Genesis import (C12, C13): every listed pool is stored with its rules, and every pool whose end height has not passed
 // is put back on the expiry queue at its end height - including a pool that ends at the very height of the import.
-//@ func InitGenesis
+//@ func InitGenesis(ctx, k, data)
 //@   property C12, C13
 //@   requires height >= 0
 //@   modifies ruleF, pools, active, farmers, escrowF, poolSeq, prm
